@@ -1,8 +1,29 @@
 import NflowsModel.Core.Driver
-/-! Core/Ops/C13 — driver operations used by the C13 correspondence (executable model, Mathlib-free). -/
+import NflowsModel.Core.Store
+/-! Core/Ops/C13 — driver operations used by the C13 correspondence (executable model, Mathlib-free).
+
+`c13_trace`: one extracted trace (or the concatenation of the traces of a call sequence).
+  request  `i` = flat events `[tag, storage, …]` (tag 0 alloc, 1 view, 2 read, 3 write — `Store.decodeEvs`),
+           `owned` = storage ids owned at call entry, `wl` = whitelisted storage ids
+  response `i` = `[traceSafe]` followed by `writeCount s` for every `s` in `owned` (same order),
+           `f` = `[offending owned wl tr, touched owned tr]`
+The definitions executed are the ones `Properties.C13` is about (`Thin.Store.traceSafe`, `writeCount`, `offending`). -/
 namespace NF
+open Thin Thin.Store
+
+def natsOf (j : Lean.Json) (k : String) : List Nat :=
+  ((jArr ((j.getObjVal? k).toOption.getD Lean.Json.null)).map jNat).toList
 
 /-- handler for the ops of this property; `none` = not one of mine -/
-def handleC13 (_r : Req) : Option Resp := none
+def handleC13 (r : Req) : Option Resp :=
+  match r.op with
+  | "c13_trace" =>
+    let tr := decodeEvs r.ints.toList
+    let owned := natsOf r.raw "owned"
+    let wl := natsOf r.raw "wl"
+    let safe : Int := if traceSafe owned wl tr then 1 else 0
+    some { ints := safe :: owned.map (fun s => Int.ofNat (writeCount s tr)),
+           fs := [offending owned wl tr, touched owned tr] }
+  | _ => none
 
 end NF
